@@ -279,9 +279,30 @@ func OSyncPaths(evs []Event, logPath string) map[string]bool {
 	sc := bufio.NewScanner(f)
 	sc.Buffer(make([]byte, 1<<20), 1<<22)
 	re := regexp.MustCompile(`openat\(.*(O_SYNC|O_DSYNC).*=\s+\d+<([^>]*)>`)
+	// with -f a call can be split: "pid openat(… O_SYNC … <unfinished ...>" and later
+	// "pid <... openat resumed>…) = 7</abs/path>"
+	reUnf := regexp.MustCompile(`^\s*(\d+)\s.*openat\(.*(O_SYNC|O_DSYNC).*<unfinished \.\.\.>`)
+	reRes := regexp.MustCompile(`^\s*(\d+)\s.*<\.\.\. openat resumed>.*=\s+\d+<([^>]*)>`)
+	pending := map[string]bool{}
 	for sc.Scan() {
-		if m := re.FindStringSubmatch(sc.Text()); m != nil {
+		line := sc.Text()
+		if m := re.FindStringSubmatch(line); m != nil {
 			out[m[2]] = true
+			continue
+		}
+		if m := reUnf.FindStringSubmatch(line); m != nil {
+			pending[m[1]] = true
+			continue
+		}
+		if m := reRes.FindStringSubmatch(line); m != nil {
+			if pending[m[1]] || strings.Contains(line, "O_SYNC") || strings.Contains(line, "O_DSYNC") {
+				out[m[2]] = true
+			}
+		}
+		if strings.Contains(line, "openat resumed>") {
+			if f := strings.Fields(line); len(f) > 0 {
+				delete(pending, f[0])
+			}
 		}
 	}
 	return out
